@@ -9,10 +9,6 @@ From DD Require Import Model.Circuit Model.LoadC2d Model.LoadD4 Proofs.PassLemma
 Import ListNotations.
 Local Open Scope nat_scope.
 
-(* only and / or nodes have outgoing edges *)
-Definition srcs_ok (g : sgraph) : Prop :=
-  forall a b, In (a, b) (sg_edges g) -> exists t, sg_label g a = Some t /\ is_gate t = true.
-
 (* ---------- the traversal ---------- *)
 Section Dfs.
 Variables (g : graph) (root : nat).
